@@ -12,6 +12,10 @@ import (
 var multiLineFeedRegex = regexp.MustCompile(`\n{3,}`)
 var replace = "\n\n"
 
+// literalLineFeed stands for a line feed inside a long string literal while formatting.
+// NUL never appears in a VCL source (the lexer treats it as the end of input).
+const literalLineFeed = "\x00"
+
 // Replace over three line-feed characters to two characters
 func trimMultipleLineFeeds(lines string) string {
 	return multiLineFeedRegex.ReplaceAllString(lines, replace)
